@@ -127,6 +127,34 @@ def gen_hijri(srcdir):
     return "\n".join(out)
 
 
+def erf_keywords(srcdir, fn):
+    """(keyword, enum-name) pairs of a gperf input file"""
+    txt = open(os.path.join(srcdir, fn)).read()
+    body = txt.split("%%")[1]
+    out = []
+    for line in body.strip().splitlines():
+        line = line.strip()
+        if not line or line.startswith("#"):
+            continue
+        k, _, v = line.partition(",")
+        out.append((k.strip(), v.strip()))
+    if len(out) < 3:
+        raise ValueError("%s: only %d keywords" % (fn, len(out)))
+    return out
+
+
+@generator("Keywords.lean")
+def gen_keywords(srcdir):
+    out = ["namespace Echse.Gen\n"]
+    for fn, name in (("evical-gp.erf", "icalFields"), ("evcomp-gp.erf", "icalComps"), ("evmeth-gp.erf", "icalMeths"),
+                     ("evrrul-gp.erf", "rrulKeys")):
+        kws = erf_keywords(srcdir, fn)
+        rows = ",\n".join('  ("%s", "%s")' % kv for kv in kws)
+        out.append("/-- keyword table of `%s` (gperf input; lookups are exact, case-sensitive matches) -/\ndef %s : List (String × String) := [\n%s]\n" % (fn, name, rows))
+    out.append("\nend Echse.Gen\n")
+    return "\n".join(out)
+
+
 def generate(srcdir, outdir):
     os.makedirs(outdir, exist_ok=True)
     changed = []
